@@ -3,6 +3,7 @@ import XPathV.Generated.ExtraFacts
 import XPathV.Lemmas.C11Base
 import XPathV.Lemmas.UnionSem
 import XPathV.Lemmas.UnionSem2
+import XPathV.Lemmas.ApiSem4
 /-!
 # C11 — union yields the set union, each node exactly once (property-level theorems)
 
@@ -237,3 +238,75 @@ theorem C11_sequence_full_unconditional {d : Doc} (wf : WF d) (cfg : ECfg) (hns 
     o hb c hc
 
 end XPathV.Theorems.C11
+
+/-! ## from the expression text, through `compile` (`Lemmas/ApiSem4.lean`)
+
+The theorems above start from a parse tree and a successful `build`.  Here the statement starts from
+the text: the parser (as `compile` runs it) turns it into `A | B` with operands in `Frag2 true`.
+A union plan is not `PathShape`, but `evaluate` does not need that: `evalP` on `.union _ _` takes
+its default arm, so `Evaluate` is covered too (`C11_from_text_evaluate`). -/
+namespace XPathV.Theorems.C11
+open XPathV XPathV.Model XPathV.Facts XPathV.PathSem XPathV.PredSem XPathV.PredSem2 XPathV.UnionSem
+  XPathV.UnionSem2 XPathV.ApiSem NumAlg
+
+/-- **C11 from the expression text**: for a text the parser turns into `A | B` with operands of the
+extended fragment, `compile` at the source configuration either reports a builder error (never
+"empty", a parse error, lack of fuel or the nil query) or returns a plan on which `Select`, from
+every valid context node of every well-formed document, yields each node of the oracle's value of
+`A | B` exactly once and nothing else -/
+theorem C11_from_text (regexOk : RegexOk) (ns : Option (List (String × String)))
+    (text : List Char) (A B : Ast)
+    (hparse : parse (fuelFor text) (defaultCfg ns) text = .ok (.oper "|" A B))
+    (hA : Frag2 true A) (hB : Frag2 true B) :
+    (∃ e, compile { regexOk := regexOk } ns text = .error (.build e)) ∨
+    (∃ p, compile { regexOk := regexOk } ns text = .ok p ∧
+      ∀ (F : Type) [NumAlg F] (d : Doc), WF d → ∀ cfg : ECfg, cfg.nsIface = true → HashInj d cfg →
+        ∀ c, validRef d c = true →
+          ∃ l nsl, selectAll (F := F) d cfg p c = .ok l ∧ l.Nodup ∧
+            Spec.evalTop (F := F) d (.oper "|" A B) c = .ok (.nodes nsl) ∧ ∀ x, x ∈ l ↔ x ∈ nsl) := by
+  rcases C11_compile_total regexOk ns text A B hparse hA hB with h | ⟨p, h1, _, h3⟩
+  · exact .inl h
+  · refine .inr ⟨p, h1, fun F _ d wf cfg hns hinj c hc => ?_⟩
+    obtain ⟨l, nsl, a1, _, a3, a4, _, a6, _⟩ := h3 F d wf cfg hns hinj c hc
+    exact ⟨l, nsl, a1, a3, a4, a6⟩
+
+/-- `C11_from_text` without the `HashInj` hypothesis (`hashInj_holds`; the side condition left is "no
+element has two attributes with the same prefix, name and value") -/
+theorem C11_from_text_unconditional (regexOk : RegexOk) (ns : Option (List (String × String)))
+    (text : List Char) (A B : Ast)
+    (hparse : parse (fuelFor text) (defaultCfg ns) text = .ok (.oper "|" A B))
+    (hA : Frag2 true A) (hB : Frag2 true B) :
+    (∃ e, compile { regexOk := regexOk } ns text = .error (.build e)) ∨
+    (∃ p, compile { regexOk := regexOk } ns text = .ok p ∧
+      ∀ (F : Type) [NumAlg F] (d : Doc), WF d → ∀ cfg : ECfg, cfg.nsIface = true →
+        AttrTriplesDistinct d →
+        ∀ c, validRef d c = true →
+          ∃ l nsl, selectAll (F := F) d cfg p c = .ok l ∧ l.Nodup ∧
+            Spec.evalTop (F := F) d (.oper "|" A B) c = .ok (.nodes nsl) ∧ ∀ x, x ∈ l ↔ x ∈ nsl) := by
+  rcases C11_from_text regexOk ns text A B hparse hA hB with h | ⟨p, h1, h2⟩
+  · exact .inl h
+  · exact .inr ⟨p, h1, fun F _ d wf cfg hns hattr c hc =>
+      h2 F d wf cfg hns (hashInj_holds wf hattr cfg) c hc⟩
+
+/-- **C11 from the expression text, `Select` and `Evaluate`**: the plan is a union plan, `Evaluate`
+returns the list `Select` yields, the oracle's node-set has no repetition either and is the union
+of the operands' node-sets -/
+theorem C11_from_text_evaluate (regexOk : RegexOk) (ns : Option (List (String × String)))
+    (text : List Char) (A B : Ast)
+    (hparse : parse (fuelFor text) (defaultCfg ns) text = .ok (.oper "|" A B))
+    (hA : Frag2 true A) (hB : Frag2 true B) :
+    (∃ e, compile { regexOk := regexOk } ns text = .error (.build e)) ∨
+    (∃ p, compile { regexOk := regexOk } ns text = .ok p ∧ (∃ l r, p = .union l r) ∧
+      ∀ (F : Type) [NumAlg F] (d : Doc), WF d → ∀ cfg : ECfg, cfg.nsIface = true → HashInj d cfg →
+        ∀ c, validRef d c = true →
+          ∃ l nsl, selectAll (F := F) d cfg p c = .ok l ∧ evaluate (F := F) d cfg p c = .ok (.nodes l) ∧
+            l.Nodup ∧ Spec.evalTop (F := F) d (.oper "|" A B) c = .ok (.nodes nsl) ∧ nsl.Nodup ∧
+            (∀ x, x ∈ l ↔ x ∈ nsl) ∧
+            (∀ x, x ∈ nsl ↔ x ∈ nodesAt d F A c ∨ x ∈ nodesAt d F B c)) :=
+  C11_compile_total regexOk ns text A B hparse hA hB
+
+end XPathV.Theorems.C11
+
+section AxiomAuditFromText
+open XPathV.Theorems.C11
+end AxiomAuditFromText
